@@ -77,6 +77,9 @@ pub struct PoolSched {
     /// Buffer selections of the kernel thread.
     pub kernel_selects: u8,
     pub pool_tape: Vec<u16>,
+    /// Priority schedule (few preemptions, long runs) instead of the tape.
+    #[serde(default)]
+    pub pct: Option<crate::sched::Pct>,
 }
 
 #[derive(Clone, Debug, Serialize, Deserialize)]
@@ -482,8 +485,8 @@ impl Property for C08 {
     fn strategy(_tier: Tier) -> BoxedStrategy<Case> {
         let seq = (prop_oneof![4 => 0u8..=3, 1 => 4u8..=6], prop_oneof![1 => 1u16..8, 4 => 1u16..300, 1 => 4000u16..4096], proptest::collection::vec(pstep(), 0..80), prop_oneof![3 => Just(0u8), 1 => 0u8..=40]).prop_map(|(pool_log2, buf_size, steps, pre_cycles)| Case::Seq(SeqCase { pool_log2, buf_size, steps, big_shift: 0, pre_cycles }));
         let big = (1u8..=3, 2048u16..=4096, 17u8..=19, proptest::collection::vec(pstep(), 0..60), 0u8..=12).prop_map(|(pool_log2, buf_size, big_shift, steps, pre_cycles)| Case::Seq(SeqCase { pool_log2, buf_size, steps, big_shift, pre_cycles }));
-        let sched = (0u8..=3, 1u16..64, 1u8..=8, 0u8..=9, proptest::collection::vec(1u8..=3, 1..=3), 0u8..=4, proptest::collection::vec(any::<u16>(), 0..80))
-            .prop_map(|(pool_log2, buf_size, take, pre_cycles, releasers, kernel_selects, pool_tape)| Case::Sched(PoolSched { pool_log2, buf_size, take, pre_cycles, releasers, kernel_selects, pool_tape }));
+        let sched = (0u8..=3, 1u16..64, 1u8..=8, 0u8..=9, proptest::collection::vec(1u8..=3, 1..=3), 0u8..=4, proptest::collection::vec(any::<u16>(), 0..80), crate::strat::maybe_pct(3, 80))
+            .prop_map(|(pool_log2, buf_size, take, pre_cycles, releasers, kernel_selects, pool_tape, pct)| Case::Sched(PoolSched { pool_log2, buf_size, take, pre_cycles, releasers, kernel_selects, pool_tape, pct }));
         prop_oneof![9 => seq, 1 => big, 3 => sched].boxed()
     }
 
@@ -1039,7 +1042,7 @@ fn run_sched(case: &PoolSched, ctx: &mut Ctx) {
             }
         }));
     }
-    let outcome = crate::sched::run(case.pool_tape.clone(), 20_000, false, threads);
+    let outcome = crate::sched::run_either(&case.pct, &case.pool_tape, 20_000, false, threads);
     if outcome.over_budget {
         exec.ctx.infra("scheduler step budget exceeded");
     }
